@@ -78,6 +78,10 @@ func __called(name string) bool { return false }
 
 func __failed(name string) bool { return false }
 
+// __visited: key k of map m has already been yielded by the range loop over
+// m that is in progress (verifier only).
+func __visited[K comparable, V any](m map[K]V, k K) bool { return false }
+
 // __calledPrefix: some function whose recorded name starts with the prefix was
 // called (verifier only).
 func __calledPrefix(prefix string) bool { return false }
